@@ -175,18 +175,24 @@ Fixpoint ie_expr (L : nat) (ps : pass) (e : expr) (s : ie_st) {struct e} : expr 
   | _ => emapM (ie_expr L ps) e s
   end.
 
-(* PROPOSED REPAIR (fixes/C08-iter-elim-live-source.diff): a loop whose body may write to a list
-   (an indexed assignment or a call anywhere in it) is left alone *)
-Fixpoint tree_has_tag (tags : list string) (t : tree) : bool :=
-  match t with T g _ _ kids => mem g tags || existsb (tree_has_tag tags) kids end.
+(* PROPOSED REPAIR (fixes/C08-iter-elim-live-source.diff): a loop whose body may write to a source list
+   -- it contains an indexed assignment, or a call with an argument that mentions a name of the iterable --
+   is left alone *)
+Fixpoint tree_hazard (sources : list ident) (t : tree) : bool :=
+  match t with
+  | T g _ _ kids =>
+      String.eqb g "iassign"
+      || ((String.eqb g "call" || String.eqb g "ctor") && existsb (fun x => mem x sources) (flat_map tree_names kids))
+      || existsb (tree_hazard sources) kids
+  end.
 
-Definition body_may_write_list (b : block) : bool :=
-  existsb (fun st => tree_has_tag ["iassign"%string; "call"%string; "ctor"%string] (tree_of_stmt st)) b.
+Definition body_may_write_source (it : expr) (b : block) : bool :=
+  existsb (fun st => tree_hazard (expr_names it) (tree_of_stmt st)) b.
 
 Fixpoint ie_stmt (fx : bool) (L : nat) (ps : pass) (st : stmt) (s : ie_st) {struct st} : list stmt * ie_st :=
   match st with
   | SFor p it b =>
-      match (if fx && body_may_write_list b then None else ie_match ps p it) with
+      match (if fx && body_may_write_source it b then None else ie_match ps p it) with
       | Some (idx_slot, pl) =>
           let '(b', s1) := bmapM (ie_stmt fx L ps) b s in
           ie_rewrite_for L idx_slot pl b' s1
